@@ -7,7 +7,7 @@ ROOT = os.path.dirname(HERE)
 CONTRACTS = os.path.join(ROOT, 'contracts')
 
 
-def parser_unit():
+def parser_unit(tier='quick', scratch=None):
     ad = [(r'\barraydeque::', 'crate::arraydeque::')]
     root = ModSpec(name='', path='parser/src/lib.rs', file_key='lib.rs', children=[
         ModSpec('char_traits', 'parser/src/char_traits.rs', 'char_traits.rs'),
@@ -25,9 +25,31 @@ def parser_unit():
         'prelude': [os.path.join(CONTRACTS, 'prelude_std.vrs'), os.path.join(CONTRACTS, 'prelude_arraydeque.vrs'),
                     os.path.join(CONTRACTS, 'spec_chars.vrs')],
         'sidecar': [os.path.join(CONTRACTS, x) for x in
-                    ('char_traits.contracts', 'input.contracts', 'str.contracts', 'buffered.contracts',
-                     'scanner.contracts', 'parser.contracts')],
+                    ('char_traits.contracts', 'input.contracts', 'str.contracts', 'buffered.contracts')]
+                   + [_scanner_sidecar(tier, scratch), os.path.join(CONTRACTS, 'parser.contracts')],
     }
+
+
+BEGIN_MARK = '## <<<thorough-tier-replaces'
+END_MARK = '## thorough-tier-replaces>>>'
+
+
+def _scanner_sidecar(tier, scratch):
+    """The quick tier uses contracts/scanner.contracts as it stands.  In the thorough tier the block between the two
+    marker lines (the ASSUMED frame of scan_block_scalar) is replaced by contracts/scanner_thorough.contracts (the
+    verified contract of that function, which costs minutes of solver time), written to a scratch file."""
+    base = os.path.join(CONTRACTS, 'scanner.contracts')
+    if tier != 'thorough':
+        return base
+    text = open(base).read()
+    a = text.index(BEGIN_MARK)
+    b = text.index(END_MARK) + len(END_MARK)
+    repl = open(os.path.join(CONTRACTS, 'scanner_thorough.contracts')).read()
+    out = text[:a] + repl + text[b:]
+    d = scratch or '/var/tmp'
+    path = os.path.join(d, 'scanner.thorough.contracts')
+    open(path, 'w').write(out)
+    return path
 
 
 def encoding_unit():
